@@ -530,6 +530,9 @@ type Recurrent struct {
 	LBR        int    `json:"linear_before_reset"`
 	Acts       []string `json:"activations,omitempty"`
 	ExplicitLBR bool  `json:"explicit_lbr"`
+	// InputForget: LSTM attribute input_forget (-1 = attribute absent); Direction: explicit "forward" attribute
+	InputForget int  `json:"input_forget"`
+	Direction   bool `json:"direction"`
 }
 
 func gates(kind string) int {
@@ -556,6 +559,11 @@ func DrawRecurrent(r *rng.R, kind string) Recurrent {
 		c.ExplicitLBR = r.Bool()
 		c.LBR = r.Intn(2)
 	}
+	c.InputForget = -1
+	if kind == "LSTM" && r.Chance(1, 3) {
+		c.InputForget = r.Intn(2)
+	}
+	c.Direction = r.Chance(1, 5)
 	if r.Chance(1, 4) {
 		switch kind {
 		case "RNN":
@@ -578,6 +586,12 @@ func (c Recurrent) OpCase(rw, rd *rng.R, seq, batch int, stateAsData bool) OpCas
 	}
 	if len(c.Acts) > 0 {
 		attrs = append(attrs, mb.AStrings("activations", c.Acts...))
+	}
+	if c.Kind == "LSTM" && c.InputForget >= 0 {
+		attrs = append(attrs, mb.AI("input_forget", int64(c.InputForget)))
+	}
+	if c.Direction {
+		attrs = append(attrs, mb.AS("direction", "forward"))
 	}
 	X := RandF32(rd, []int{seq, batch, c.Input}, -1, 1)
 	W := RandF32(rw, []int{1, g * c.Hidden, c.Input}, -1, 1)
@@ -622,5 +636,5 @@ func (c Recurrent) OpCase(rw, rd *rng.R, seq, batch int, stateAsData bool) OpCas
 }
 
 func (c Recurrent) String() string {
-	return fmt.Sprintf("%s(in=%d,hid=%d,B=%v,h0=%v,c0=%v,P=%v,lbr=%d/%v,acts=%v)", c.Kind, c.Input, c.Hidden, c.HasB, c.HasH0, c.HasC0, c.HasP, c.LBR, c.ExplicitLBR, c.Acts)
+	return fmt.Sprintf("%s(in=%d,hid=%d,B=%v,h0=%v,c0=%v,P=%v,lbr=%d/%v,acts=%v,input_forget=%d,dir=%v)", c.Kind, c.Input, c.Hidden, c.HasB, c.HasH0, c.HasC0, c.HasP, c.LBR, c.ExplicitLBR, c.Acts, c.InputForget, c.Direction)
 }
